@@ -151,3 +151,41 @@ pub fn draw_cpu(rng: &mut Rng, rows: usize) -> Cpu {
         _ => Some(rng.range(1, 16)),
     }
 }
+
+/// Fixed corpus for the seam-fidelity self-test: (kind, D, E) with kinds
+/// complement | complete | degree_sequence | is_semicomplete | list_union | map_union.
+pub fn fidelity_corpus() -> Vec<(&'static str, Dg, Dg)> {
+    let mut rng = Rng::new(0xF1DE_117);
+    let mut out = Vec::new();
+    for &n in &[1usize, 2, 3, 5, 7, 8, 9, 15, 16, 17, 23, 31, 32, 33, 40] {
+        let p = draw_density(&mut rng);
+        let d = random_dg(&mut rng, n, p);
+        let m = rng.range(1, n + 3);
+        let q = draw_density(&mut rng);
+        let e = random_dg(&mut rng, m, q);
+        out.push(("complement", d.clone(), e.clone()));
+        out.push(("complete", d.clone(), e.clone()));
+        out.push(("degree_sequence", d.clone(), e.clone()));
+        out.push(("is_semicomplete", near_semicomplete(&mut rng, n, true), e.clone()));
+        out.push(("list_union", d.clone(), e.clone()));
+        let vs = random_vertex_set(&mut rng, m, 60);
+        let f = random_dg_on(&mut rng, &vs, q.min(600));
+        out.push(("map_union", d, f));
+    }
+    out
+}
+
+/// One line of the fidelity listing: the observed result, canonically.
+pub fn fidelity_line(kind: &str, i: usize, verts: &[usize], arcs: &[(usize, usize)], seq: &[usize], flag: bool, model_ok: bool) -> String {
+    let d = crate::rng::digest_words(
+        verts
+            .iter()
+            .map(|&x| x as u64)
+            .chain(std::iter::once(u64::MAX))
+            .chain(arcs.iter().flat_map(|&(u, v)| [u as u64, v as u64]))
+            .chain(std::iter::once(u64::MAX))
+            .chain(seq.iter().map(|&x| x as u64))
+            .chain(std::iter::once(u64::from(flag))),
+    );
+    format!("{i} {kind} {d:016x} {}", if model_ok { "model-ok" } else { "MODEL-MISMATCH" })
+}
